@@ -25,6 +25,8 @@ func checkC16(r *core.Run) {
 	r.Rule("T-count: Append*: id := GetCount(); record stored under key(id) with Id := id; SetCount(id + 1); return id")
 	r.Rule("G-inflight: UpdateMetaStatusAndCommit writes <= metadata.Status == MetaComplete; in Store the call <= lastOrder.Status == OrderCompleted with lastOrder = GetOrder(meta.OrderId)")
 	r.Rule("T-forcepush: the shrinking reslice of Metadata.Commits is never inside a loop (a force-push replaces only the latest entry)")
+	r.Rule("E6-pair(order): the order and shard counters are restored by InitGenesis into the keys ExportGenesis read them from (identifiers stay unique across a genesis restart)")
+	ruleGenesisPairs(r, "E6-pair", "order")
 	r.Rule("T-base(latest): in Store the call is dominated by a test relating the request's base commit to meta.Commit, the model's latest version (equality or containment) — a membership test in the list of all committed versions accepts stale bases")
 	r.Rule("T-base: in Store the call is dominated by an EQUALITY between meta.Commit and the base commit taken from the request (containment admits empty or partial ids)")
 	r.Assume(aDeps)
